@@ -34,7 +34,8 @@ CHECKS = {
              "user-state tags on shared variables with scripted leaf suspensions between their goals (so siblings' steps "
              "interleave in many patterns), under a stateless schedule applied unchanged to every run: the multiset of (answer, "
              "user tag log) of the disjunction must equal the union of the branches run alone; a clone of the suspended stream "
-             "taken mid-run must deliver exactly the original's remainder. Isolation only fails when a sibling runs between two "
+             "taken mid-run must deliver exactly the original's remainder. A tenth of the tree cases read a structure built before "
+             "the conde through ONE project goal placed after it (a goal object shared by the states of all branches). Isolation only fails when a sibling runs between two "
              "steps of a branch, i.e. it is a property of interleavings.",
         design="7 (C10), 4 (R4), 1 (N2, N3)",
         technique="deterministic simulation: scripted suspensions interleaving sibling branches + stream fork, differential multiset oracle",
@@ -91,15 +92,17 @@ CHECKS = {
              "long-lived Query (sequential re-runs, up to three interleaved iterators, drops half way): every exhausted iterator "
              "must return the reference interpreter's multiset (projection evaluated on the reaching state's own value) and "
              "nothing may panic. The property only fails when a sibling state or an earlier run touches the projection between "
-             "two steps of a branch, which is a schedule/history dimension. Every 64th case is a program written with the repository's own macros (sim/src/surface.rs) with hand-listed expected answers, so that changes above the runtime API (in macros/) are seen too.",
+             "two steps of a branch, which is a schedule/history dimension. Projected values are numbers, strings, lists and #[compound] "
+             "terms (also compounds nested in compounds) around variables bound per state; bodies include a syntactic is-ground test. Every 64th case is a program written with the repository's own macros (sim/src/surface.rs) with hand-listed expected answers, so that changes above the runtime API (in macros/) are seen too.",
         design="7 (C11), 1 (N2, N3)",
         technique="deterministic simulation: scripted suspensions + consumer histories (restart, interleave, cancel) against a reference interpreter",
     ),
     "C15": dict(
         text="Scope-limited (see DESIGN.md 7/C15). (i) Generated programs with recursive relations whose unfoldings introduce fresh "
              "variables, several invocations alive in one conjunction, closures, under every schedule and under interleaved "
-             "iterators of one Query, against the reference interpreter (new variables per unfolding). (ii) A fixed corpus of "
-             "macro-written relations (shadowing, sibling scopes, pattern arms reusing names, repeated pattern variables, "
+             "iterators of one Query, against the reference interpreter (new variables per unfolding); a quarter of the programs also "
+             "contain a `for` over a collection with equal elements whose body picks a value for a fresh variable. (ii) A fixed corpus of "
+             "13 macro-written relations (shadowing, sibling scopes, pattern arms reusing names, an enclosing name used in an arm whose sibling binds it, repeated pattern variables, "
              "recursion through proto_vulcan_closure!) compiled against the current macros at check time, compared with "
              "hand-listed answers and hand-renamed twins. (iii) The process-global variable-id counter under 2-4 real threads "
              "scheduled by shuttle (random and PCT schedulers, seed from VERIF_SEED, failing schedule persisted and replayable): "
